@@ -1,13 +1,17 @@
 #!/bin/bash
-# Development-time: apply a seeded change to /repo, run the given checks (quick), undo it.
+# Development-time: apply a seeded change to a scratch copy of /repo, run the given checks (quick)
+# against that copy (VERIF_REPO), remove the copy.  /repo itself is never touched.
 # usage: run_mutant.sh <seeded-name> <ID> [<ID> ...]
 set -u
 name=$1; shift
 cd /verif
-git -C /repo diff --quiet || { echo "/repo is dirty"; exit 3; }
-git -C /repo apply /verif/seeded/$name/patch.diff || exit 3
-trap 'git -C /repo checkout -- . ; git -C /repo clean -fdq' EXIT
+copy=/tmp/mutrepo-$name
+rm -rf $copy; cp -a /repo $copy
+git -C $copy checkout -q -- . 
+git -C $copy apply /verif/seeded/$name/patch.diff || { rm -rf $copy; exit 3; }
+trap 'rm -rf $copy' EXIT
 for id in "$@"; do
-  out=$(VERIF_SEED=${VERIF_SEED:-1} ./check $id ${TIER:-quick} 2>&1); rc=$?
+  out=$(VERIF_REPO=$copy VERIF_SEED=${VERIF_SEED:-1} VERIF_EVIDENCE_DIR=/tmp/mutev-$name timeout 1500 ./check $id ${TIER:-quick} 2>&1); rc=$?
   echo "== $name $id rc=$rc"; echo "$out" | grep -E 'VIOLATION|what:|KNOWN|INCONCLUSIVE|DRIFT' | head -8
 done
+rm -rf /tmp/mutev-$name
